@@ -126,7 +126,8 @@ func (pf *ProofFac) Verify(Session []byte, ec elliptic.Curve, N0, NCap, s, t *bi
 	if pf == nil || !pf.ValidateBasic() || ec == nil || N0 == nil || NCap == nil || s == nil || t == nil {
 		return false
 	}
-	if N0.Sign() != 1 {
+	if N0.Sign() != 1 || NCap.Sign() != 1 {
+		// exponentiation modulo a non-positive number is exponentiation without a modulus
 		return false
 	}
 
